@@ -126,10 +126,10 @@ func countingCall(info *types.Info, call *ast.CallExpr) (int, bool) {
 
 func init() {
 	register("C07", &propInfo{
-		Explanation: "For every function with the RayCollisions contract (a func(RayCollision) callback parameter and an int result; 2D and 3D, found by signature) a structured abstract interpreter proves on every path that the returned count equals the number of callback invocations (A3.CNT, delegations to siblings with an equivalent callback are neutral; closures must be count-neutral per invocation), that the callback is only invoked where it is known to be non-nil (A3.GUARD) and that neither the count nor the control flow depends on the callback being nil (A3.NILDEP). AM: every first-collision selection keeps the candidate with the smaller Scale. NN: every RayCollision handed out has a Scale that passed a non-negativity test. KIND: ray wrappers keep directions, ray parameters and normals in their kinds.",
+		Explanation: "For every function with the RayCollisions contract (a func(RayCollision) callback parameter and an int result; 2D and 3D, found by signature) a structured abstract interpreter proves on every path that the returned count equals the number of callback invocations (A3.CNT, delegations to siblings with an equivalent callback are neutral; closures must be count-neutral per invocation), that the callback is only invoked where it is known to be non-nil (A3.GUARD) and that neither the count nor the control flow depends on the callback being nil (A3.NILDEP). AM: every first-collision selection keeps the candidate with the smaller Scale. NN: every RayCollision handed out has a Scale that passed a non-negativity test. UNIT/FRAME: ray wrappers keep directions, ray parameters and normals in their kinds and map query values through the inverse transform; ball and ray tests compare like with like. Q: no collider method writes receiver-reachable memory (a collider that caches per-query state is neither re-entrant nor safe for concurrent use).",
 		Trusted:     []string{"go/types and go/ast of x/tools v0.29.0", "the modelling of Go statements in checker/a3.go", "the RayCollisions family is recognised by signature"},
 		Assumptions: []string{"user-supplied callbacks do not panic", "sibling RayCollisions implementations satisfy the same contract (checked for all implementations in the library, assumed for foreign ones)"},
-		Fixtures:    []string{"a3"},
+		Fixtures:    []string{"a3", "u"},
 		Run:         runC07,
 		SelfTest: []Mutation{
 			{Name: "transformedCollider without nil pass-through", File: "model3d/transform.go",
@@ -138,6 +138,12 @@ func init() {
 				Old: "\t\t\t\t}\n\t\t\t\tn++\n", New: "\t\t\t\t}\n", Rule: "A3.CNT", Expect: "Cone"},
 			{Name: "Triangle counts only with callback", File: "model3d/primitives.go",
 				Old: "\tif f != nil {\n\t\tf(RayCollision{Scale: scale, Normal: t.Normal(), Extra: info})\n\t}\n\treturn 1", New: "\tif f != nil {\n\t\tf(RayCollision{Scale: scale, Normal: t.Normal(), Extra: info})\n\t\treturn 1\n\t}\n\treturn 0", Rule: "A3.NILDEP", Expect: "Triangle"},
+			{Name: "ball query radius through the forward transform", File: "model3d/transform.go",
+				Old: "t.c.SphereCollision(t.inv.Apply(c), t.inv.ApplyDistance(r))", New: "t.c.SphereCollision(t.inv.Apply(c), t.t.ApplyDistance(r))", Rule: "FRAME", Expect: "SphereCollision"},
+			{Name: "collider reuses a scratch slice in its receiver", File: "model3d/collisions.go",
+				Old: "func (j *JoinedCollider) RayCollisions(r *Ray, f func(RayCollision)) int {\n", New: "func (j *JoinedCollider) RayCollisions(r *Ray, f func(RayCollision)) int {\n\tj.colliders = j.colliders[:len(j.colliders):len(j.colliders)]\n", Rule: "Q", Expect: "JoinedCollider"},
+			{Name: "ray parameter scaled like a length (defect F4)", File: "model3d/transform.go",
+				Old: "Scale:  rc.Scale,", New: "Scale:  t.t.ApplyDistance(rc.Scale),", Rule: "UNIT", Expect: "outerCollision"},
 			{Name: "2D JoinedCollider keeps the farthest hit", File: "model2d/collisions.go",
 				Old: "collision.Scale < closest.Scale || !anyCollides", New: "collision.Scale > closest.Scale || !anyCollides", Rule: "AM", Expect: "JoinedCollider"},
 			{Name: "Capsule reports two, returns count 1", File: "model3d/shapes.go",
@@ -156,6 +162,19 @@ func runC07(c *Ctx) {
 	c.runCallbackCount(rayFamily, pkgs)
 	c.runArgMin(pkgs, "AM")
 	c.floor("AM", 10)
+	// kinds and frames of ray wrappers, units of the ball/ray tests
+	upkgs := c.unitPkgs("u")
+	c.runUnits("UNIT", upkgs, c.fileFilter("collisions.go", "primitives.go", "shapes.go", "transform.go", "bvh.go"))
+	c.floor("UNIT", 100)
+	c.runFrames("FRAME", upkgs)
+	c.floor("FRAME", 30)
+	// colliders keep no per-query state in the receiver
+	eng := newEffEngine(c)
+	c.runQueryPurityFor(eng, c.libPkgs()[:2], "Q", map[string][]string{
+		"model3d": {"Collider", "TriangleCollider", "SegmentCollider", "RectCollider", "MultiCollider"},
+		"model2d": {"Collider", "SegmentCollider", "RectCollider", "MultiCollider"},
+	})
+	c.floor("Q", 100)
 	c.floor("A3.CNT", 30)
 	c.floor("A3.GUARD", 25)
 	c.floor("A3.NILDEP", 25)
